@@ -20,6 +20,9 @@ type Case struct {
 	BareLF  bool   `json:"bare_lf"` // body lines end in bare LF (both measures coincide)
 	Size    string `json:"size"`    // "", "true", "under", "over", "huge", "junk"
 	Backend string `json:"backend"`
+	// Extra adds a second recipient of the big message: "" none, "discard" one whose domain is
+	// not stored, "other" another stored one.
+	Extra string `json:"extra,omitempty"`
 }
 
 var prop = hx.Prop[Case]{
@@ -50,6 +53,7 @@ var prop = hx.Prop[Case]{
 		c.Lines = rapid.IntRange(1, 3).Draw(t, "lines")
 		c.BareLF = rapid.Bool().Draw(t, "barelf")
 		c.Size = rapid.SampledFrom([]string{"", "", "true", "under", "over", "huge", "junk"}).Draw(t, "size")
+		c.Extra = rapid.SampledFrom([]string{"", "", "discard", "other"}).Draw(t, "extra")
 		return c
 	},
 	Run: run,
@@ -84,6 +88,7 @@ func run(c Case) *hx.Outcome {
 	o := &hx.Outcome{}
 	cfg := hx.DefaultCfg()
 	cfg.Backend, cfg.MaxMessageBytes, cfg.NoHTTP = c.Backend, c.Limit, true
+	cfg.DiscardDomains = []string{"discard.test"}
 	w, err := hx.NewWorld(cfg)
 	if err != nil {
 		o.Failf(pid+":harness", "world: %v", err)
@@ -94,6 +99,25 @@ func run(c Case) *hx.Outcome {
 	hi := len(data)                                                 // bytes on the wire (no line starts with a dot)
 	lo := len(bytes.ReplaceAll(data, []byte("\r\n"), []byte("\n"))) // after CRLF -> LF
 	model := hx.NewEModel()
+	// addBig records the big message for every stored recipient of its transaction
+	addBig := func(tx []byte, t0 time.Time) {
+		to := []*mailAddr{{Address: "big@a.test"}}
+		boxes := []string{"big"}
+		switch c.Extra {
+		case "discard":
+			to = append(to, &mailAddr{Address: "nobody@discard.test"})
+		case "other":
+			to = append(to, &mailAddr{Address: "big2@a.test"})
+			boxes = append(boxes, "big2")
+		}
+		for _, b := range boxes {
+			e := &hx.EMsg{Mailbox: b, From: (&hx.Addr{Address: "s@a.test"}).Mail(), To: to, Subject: "size test", Sender: "s@a.test", Data: tx}
+			if !t0.IsZero() {
+				e.Helo, e.NotBefo, e.NotAfter = "c.test", t0, time.Now()
+			}
+			model.Add(e)
+		}
+	}
 	cl, _, err := w.DialSMTP()
 	if err != nil {
 		o.Failf(pid+":harness", "dial: %v", err)
@@ -145,6 +169,14 @@ func run(c Case) *hx.Outcome {
 			o.Failf(pid+":harness", "RCPT: %v %v", r, err)
 			return o
 		}
+		if c.Extra != "" {
+			extra := map[string]string{"discard": "nobody@discard.test", "other": "big2@a.test"}[c.Extra]
+			if r, err := cl.Cmd("RCPT TO:<" + extra + ">"); err != nil || r.Class() != 2 {
+				o.Failf(pid+":harness", "RCPT: %v %v", r, err)
+				return o
+			}
+			o.Class("second recipient: " + c.Extra)
+		}
 		if r, err := cl.Cmd("DATA"); err != nil || r.Code != 354 {
 			o.Failf(pid+":harness", "DATA: %v %v", r, err)
 			return o
@@ -162,26 +194,26 @@ func run(c Case) *hx.Outcome {
 			o.Class("over the limit")
 			if r.Class() == 2 {
 				o.Failf(pid+":oversize-accepted", "limit %d: a message of %d bytes (%d after CRLF->LF) was acknowledged with %v", c.Limit, hi, lo, r)
-				model.Add(&hx.EMsg{Mailbox: "big", From: (&hx.Addr{Address: "s@a.test"}).Mail(), To: []*mailAddr{{Address: "big@a.test"}}, Subject: "size test", Sender: "s@a.test", Data: tx})
+				addBig(tx, time.Time{})
 			}
 		case hi <= c.Limit:
 			o.Class("within the limit")
 			if r.Code != 250 {
 				o.Failf(pid+":within-limit-refused", "limit %d: a message of %d bytes was answered %v", c.Limit, hi, r)
 			} else {
-				model.Add(&hx.EMsg{Mailbox: "big", From: (&hx.Addr{Address: "s@a.test"}).Mail(), To: []*mailAddr{{Address: "big@a.test"}}, Subject: "size test", Sender: "s@a.test", Helo: "c.test", Data: tx, NotBefo: t0, NotAfter: time.Now()})
+				addBig(tx, t0)
 			}
 		default:
 			o.Class("boundary-ambiguous")
 			if r.Code == 250 {
-				model.Add(&hx.EMsg{Mailbox: "big", From: (&hx.Addr{Address: "s@a.test"}).Mail(), To: []*mailAddr{{Address: "big@a.test"}}, Subject: "size test", Sender: "s@a.test", Helo: "c.test", Data: tx, NotBefo: t0, NotAfter: time.Now()})
+				addBig(tx, t0)
 			}
 		}
 		if d := hi - c.Limit; d >= -3 && d <= 3 {
 			o.NonTrivial = true
 			o.Class("within 3 bytes of the limit")
 		}
-		if err := hx.CmpE2E(w.Store, model, []string{"big", "small"}); err != nil && !o.Failed() {
+		if err := hx.CmpE2E(w.Store, model, []string{"big", "big2", "small", "nobody"}); err != nil && !o.Failed() {
 			o.Failf(pid+":oversize-stored", "limit %d, message %d bytes, reply %v: %v", c.Limit, hi, r, err)
 		}
 	}
@@ -203,7 +235,7 @@ func run(c Case) *hx.Outcome {
 	}
 	_, tx := hx.DotStuff(small)
 	model.Add(&hx.EMsg{Mailbox: "small", From: (&hx.Addr{Address: "s@a.test"}).Mail(), To: []*mailAddr{{Address: "small@a.test"}}, Subject: "small", Sender: "s@a.test", Helo: "c.test", Data: tx, NotBefo: t0, NotAfter: time.Now()})
-	if err := hx.CmpE2E(w.Store, model, []string{"big", "small"}); err != nil && !o.Failed() {
+	if err := hx.CmpE2E(w.Store, model, []string{"big", "big2", "small", "nobody"}); err != nil && !o.Failed() {
 		o.Failf(pid+":store-differs", "after the follow-up: %v", err)
 	}
 	return o
